@@ -572,13 +572,31 @@ def _r1(ctx, pkg):
                   and any(y == base_ for a_ in (x[2] if x[0] == "call" else x[3]) for y in walk(a_))]
         if not stripped and hidden:
             ctx.unrec("R1", "_reaction_factory:blank-line test", (NET, f.line), "the emptiness of the pre-processed line is tested through " + show(simp(hidden[0]))[:80])
+        elif stripped:
+            ctx.ok("R1", "_reaction_factory:blank-line test", (NET, f.line), "a reaction is created only when the pre-processed line is non-blank after strip()")
         else:
-            ctx.check(stripped, "R1", "_reaction_factory:blank-line test", (NET, f.line),
-                      "a reaction is created only when the pre-processed line is non-blank after strip()" if stripped else
-                      "the emptiness test is made on the raw line: a line holding only blanks / the terminator is truthy and becomes a reaction",
-                      expected="if react_string and react_string.strip():", found="; ".join(show(simp(g))[:100] for g, _ in f.guards))
+            # not the usual spelling: decide on concrete blank lines -- does one of them pass every test on the way to the constructor?
+            passed, unknown = [], False
+            for blank in ("", " ", "\n", "  \t\r\n"):
+                try:
+                    if all(bool(_ceval(simp(g), {base_: blank})) == pol for g, pol in f.guards):
+                        passed.append(blank)
+                except _Unknown:
+                    unknown = True
+            if passed:
+                ctx.bad("R1", "_reaction_factory:blank-line test", (NET, f.line),
+                        f"the emptiness test lets the blank line {passed[0]!r} through: a line holding only blanks / the terminator is truthy and becomes a reaction",
+                        expected="if react_string and react_string.strip():", found="; ".join(show(simp(g))[:100] for g, _ in f.guards))
+            elif unknown:
+                ctx.unrec("R1", "_reaction_factory:blank-line test", (NET, f.line), "cannot decide the tests between the pre-processed line and the constructor on a blank line: "
+                          + "; ".join(show(simp(g))[:60] for g, _ in f.guards)[:160])
+            else:
+                ctx.ok("R1", "_reaction_factory:blank-line test", (NET, f.line), "no blank line passes the tests on the way to the constructor")
         pre = any(isinstance(x, tuple) and len(x) >= 3 and x[0] == "meth" and x[2] == "preprocessing" for x in walk(arg))
-        ctx.check(pre, "R1", "_reaction_factory:preprocessing", (NET, f.line), "the line handed to the parser is the class's preprocessing of the raw line")
+        if not pre and sum(isinstance(c, ast.Attribute) and c.attr == "preprocessing" for c in ast.walk(pkg.modules[NET])) > 0:
+            ctx.unrec("R1", "_reaction_factory:preprocessing", (NET, f.line), "the pre-processing is not applied where the parser is constructed but elsewhere in the module")
+        else:
+            ctx.check(pre, "R1", "_reaction_factory:preprocessing", (NET, f.line), "the line handed to the parser is the class's preprocessing of the raw line")
     # base preprocessing is the identity
     pkg.method("Reaction", "preprocessing")
     base = pkg.folded("Reaction", "preprocessing")
@@ -600,8 +618,39 @@ def _r1(ctx, pkg):
               expected="return line", found="; ".join(f"{show(simp(f.value))[:40]} if {[show(simp(g))[:50] for g, _ in f.guards]}" for f in rets))
     # which classes override it
     over = sorted(c for c in pkg.subclasses("Reaction") if "preprocessing" in pkg.classes[c].methods)
-    ctx.check(over == ["KROMEReaction"], "R1", "preprocessing overrides", (R, base.lineno),
-              "only KROME (whose syntax defines comment and directive lines) filters lines", expected="['KROMEReaction']", found=str(over))
+    extra = [c for c in over if c != "KROMEReaction"]
+    if extra:
+        # another format pre-processes its lines: a violation only when a well-formed line of that format is seen to be dropped / changed
+        for c in extra:
+            ofn = pkg.folded(c, "preprocessing")
+            ofl = Flow(ofn, pkg.cls(c).file)
+            oline = ("param", ofn.args.args[-1].arg) if ofn.args.args else None
+            fmt_ = pkg.cls(c).attrs.get("format")
+            fmt_ = ast.literal_eval(fmt_) if fmt_ is not None and isinstance(fmt_, ast.Constant) else None
+            orets = [f for f in ofl.facts if f.kind == "return"]
+            verdict = None
+            for fm, sample in [x for x in SAMPLES if fmt_ is None or x[0] == fmt_]:
+                try:
+                    vals = [_ceval(simp(f.value), {oline: sample}, _const_resolver(pkg, pkg.cls(c).file, c)) for f in orets
+                            if all(bool(_ceval(simp(g), {oline: sample}, _const_resolver(pkg, pkg.cls(c).file, c))) == pol for g, pol in f.guards)]
+                except _Unknown:
+                    verdict = verdict or "unknown"
+                    continue
+                if len(vals) != 1:
+                    verdict = verdict or "unknown"
+                elif not _same_record(vals[0], sample):
+                    verdict = ("bad", sample, vals[0])
+                    break
+            if isinstance(verdict, tuple):
+                ctx.bad("R1", f"preprocessing overrides:{c}", (pkg.cls(c).file, ofn.lineno), f"{c}.preprocessing drops / rewrites the well-formed line {verdict[1].strip()[:50]!r}",
+                        expected="the line", found=repr(verdict[2])[:60])
+            elif verdict == "unknown" or not orets:
+                ctx.unrec("R1", f"preprocessing overrides:{c}", (pkg.cls(c).file, ofn.lineno), f"{c} pre-processes its lines in a way this rule cannot follow")
+            else:
+                ctx.ok("R1", f"preprocessing overrides:{c}", (pkg.cls(c).file, ofn.lineno), f"{c}.preprocessing keeps every sample line of its format")
+    else:
+        ctx.check(over == ["KROMEReaction"], "R1", "preprocessing overrides", (R, base.lineno),
+                  "only KROME (whose syntax defines comment and directive lines) filters lines", expected="['KROMEReaction']", found=str(over))
     pkg.method("KROMEReaction", "preprocessing")
     k = pkg.folded("KROMEReaction", "preprocessing")          # class-level prefix tables written in place, loops over them unrolled
     kfl = Flow(k, "naunet/reactions/kromereaction.py")
@@ -615,8 +664,27 @@ def _r1(ctx, pkg):
         if any(simp(f.value)[0] not in ("const", "meth", "param") for f in keeps) or not keeps:
             ctx.unrec("R1", "KROMEReaction.preprocessing", (K, k.lineno), "cannot see which lines are kept: expected one `return line.strip()` and `return \"\"` elsewhere")
         else:
-            ctx.bad("R1", "KROMEReaction.preprocessing", (K, k.lineno), "KROME keeps every non-comment, non-directive line stripped and nothing else",
-                    expected="one return of line.strip()", found="; ".join(show(simp(f.value))[:40] for f in keeps))
+            # several paths keep a line (or keep it in another spelling): decide on concrete lines of a KROME file
+            kc = _const_resolver(pkg, K, "KROMEReaction")
+            wrong, unknown = None, False
+            tests = [(s_, s_.strip()) for fm, s_ in SAMPLES if fm == "krome"] + [(d, "") for d in ("#comment\n", "//comment\n", "@format:idx,R,R,P,P,Tmin,Tmax,rate\n", "@var: x = 1\n", "@common: a,b\n")]
+            for text, want_ in tests:
+                try:
+                    vals = [_ceval(simp(f.value), {LINE: text}, kc) for f in rets if not f.loops and all(bool(_ceval(simp(g), {LINE: text}, kc)) == pol for g, pol in f.guards)]
+                except _Unknown:
+                    unknown = True
+                    continue
+                if len(vals) != 1:
+                    unknown = True
+                elif (vals[0] or "") != want_:
+                    wrong = wrong or (text, vals[0])
+            if wrong:
+                ctx.bad("R1", "KROMEReaction.preprocessing", (K, k.lineno), "KROME keeps every non-comment, non-directive line stripped and nothing else",
+                        expected="line.strip() for data lines, '' for comment / directive lines", found=f"{wrong[0].strip()[:40]!r} -> {wrong[1]!r}")
+            elif unknown:
+                ctx.unrec("R1", "KROMEReaction.preprocessing", (K, k.lineno), "cannot see which lines are kept: expected one `return line.strip()` and `return \"\"` elsewhere")
+            else:
+                ctx.ok("R1", "KROMEReaction.preprocessing", (K, k.lineno), "data lines are kept stripped, comment / directive lines give '' (decided on sample lines)")
     else:
         pref, foreign = set(), []
         for g, pol in keeps[0].guards:
@@ -681,8 +749,12 @@ def _blank_guard(g, pol):
 
 def _r2(ctx, pkg):
     sp = pkg.cls("Species")
-    lst = set(ast.literal_eval(sp.attrs["default_pseudoelements"]))
-    ctx.check(MARKERS <= lst, "R2", "Species.default_pseudoelements:markers", ("naunet/species.py", sp.node.lineno),
+    try:
+        lst = set(ast.literal_eval(sp.attrs["default_pseudoelements"]))
+    except (KeyError, ValueError, TypeError, SyntaxError):
+        lst = None
+        ctx.unrec("R2", "Species.default_pseudoelements:markers", ("naunet/species.py", sp.node.lineno), "Species.default_pseudoelements is not a literal list in the class body")
+    lst is not None and ctx.check(MARKERS <= lst, "R2", "Species.default_pseudoelements:markers", ("naunet/species.py", sp.node.lineno),
               "the database marker tokens CR, CRP, PHOTON, Photon, CRPHOT are pseudo-elements (filtered by _create_species)", expected=str(sorted(MARKERS)),
               found=str(sorted(MARKERS - lst)) + " missing")
     fn = _parser(pkg, "UCLCHEMReaction")
@@ -788,15 +860,37 @@ def _r2(ctx, pkg):
         ctx.unrec("R2", "KROME:append only real species", ("naunet/reactions/kromereaction.py", kfn.lineno),
                   f"the reactant / product lists are not (only) filled by append calls this rule can read (appends seen for {sorted(covered)})")
     else:
-        good = True
+        good, opaque = True, []
         for f, _, args in sites:
             arg = simp(args[0])
+            if not (arg[0] == "meth" and arg[2] == "_create_species") and arg[0] not in ("elem", "sub", "item", "param", "const"):
+                opaque.append(arg)          # neither a created species nor a raw token: what is appended is not understood
             good = good and arg[0] == "meth" and arg[2] == "_create_species" and any(pol and any(x == arg for x in walk(simp(g))) for g, pol in f.guards)
-        ctx.check(good, "R2", "KROME:append only real species", ("naunet/reactions/kromereaction.py", kfn.lineno),
-                  "a token is appended only when _create_species(token) is not None (pseudo-elements are dropped)")
+        if not good and opaque:
+            ctx.unrec("R2", "KROME:append only real species", ("naunet/reactions/kromereaction.py", kfn.lineno), "cannot see what is appended to the reactant / product lists: " + show(opaque[0])[:100])
+        else:
+            ctx.check(good, "R2", "KROME:append only real species", ("naunet/reactions/kromereaction.py", kfn.lineno),
+                      "a token is appended only when _create_species(token) is not None (pseudo-elements are dropped)")
 
 
 # ------------------------------------------------------------------ R3 / R5 for split formats
+
+def _indirect_stores(fn):
+    """text of the first construct of the (folded) parser through which an attribute of self may be set without a plain `self.x = ..`:
+    setattr / vars / __dict__ / a call that is handed self, or of a method of self that was not put back in place; '' when there is none"""
+    for c in ast.walk(fn):
+        if isinstance(c, ast.Call):
+            f = c.func
+            if isinstance(f, ast.Name) and f.id in ("setattr", "vars"):
+                return ast.unparse(c)[:50]
+            if isinstance(f, ast.Attribute) and isinstance(f.value, ast.Name) and f.value.id == "self" and f.attr not in KEEP and not f.attr.startswith("__"):
+                return ast.unparse(c)[:50]
+            if any(isinstance(a, ast.Name) and a.id == "self" for a in c.args):
+                return ast.unparse(c)[:50]
+        if isinstance(c, ast.Attribute) and c.attr in ("__dict__", "__setattr__"):
+            return ast.unparse(c)[:50]
+    return ""
+
 
 def _positions(fl, attrs):
     out = {}
@@ -979,7 +1073,10 @@ def _split_formats(ctx, pkg):
         src = show(rec)
         star, from_end = R_.star, R_.from_end
         sep_ok = sp[3] == (("const", lay["sep"]),) and not sp[4]
-        ctx.check(sep_ok, "R3", f"{cls}:separator", (file, fn.lineno), f"records are split at '{lay['sep']}'", found=src[-40:])
+        if not sep_ok and not (len(sp[3]) == 1 and sp[3][0][0] == "const" and not sp[4]):
+            ctx.unrec("R3", f"{cls}:separator", (file, fn.lineno), f"cannot see the literal separator the record is split at: {src[-40:]}")
+        else:
+            ctx.check(sep_ok, "R3", f"{cls}:separator", (file, fn.lineno), f"records are split at '{lay['sep']}'", found=src[-40:])
         if cls == "UMISTReaction":
             # positions counted from the end (the targets after a starred one) are right only when the record has exactly n fields
             if star or from_end or total is not None:
@@ -1003,8 +1100,8 @@ def _split_formats(ctx, pkg):
                           found=f"fields[{got[1]}:{got[2]}]  ({show(base)[-50:]})")
         for attr, (p, conv) in lay["fields"].items():
             if attr not in seen:
-                if any(isinstance(c, ast.Call) and isinstance(c.func, ast.Name) and c.func.id in ("setattr", "vars") for c in ast.walk(fn)):
-                    ctx.unrec("R5", f"{cls}:{attr}", (file, fn.lineno), f"no plain store into self.{attr}; attributes are set through setattr with a name this rule cannot read")
+                if _indirect_stores(fn):
+                    ctx.unrec("R5", f"{cls}:{attr}", (file, fn.lineno), f"no plain store into self.{attr}; attributes may be set indirectly ({_indirect_stores(fn)})")
                 else:
                     ctx.bad("R5", f"{cls}:{attr}", (file, fn.lineno), f"self.{attr} is never assigned from the record")
                 continue
@@ -1097,7 +1194,10 @@ def _kida(ctx, pkg):
     for attr, (p, conv) in KIDA_TAIL.items():
         f = pos.get(attr)
         if f is None:
-            ctx.bad("R5", f"KIDA:{attr}", (file, fn.lineno), f"self.{attr} is never assigned from the record")
+            if _indirect_stores(fn):
+                ctx.unrec("R5", f"KIDA:{attr}", (file, fn.lineno), f"no plain store into self.{attr}; attributes may be set indirectly ({_indirect_stores(fn)})")
+            else:
+                ctx.bad("R5", f"KIDA:{attr}", (file, fn.lineno), f"self.{attr} is never assigned from the record")
             continue
         v, wraps = _unwrap(simp(f.value))
         if v[0] == "sub" and v[2][0] == "const" and isinstance(v[2][1], int):
@@ -1118,9 +1218,11 @@ def _kida(ctx, pkg):
         ctx.ok("R3", "KIDA:arity", (file, fn.lineno), "every token of the numeric tail is read by its position from the start of the tail (no destructuring whose arity could be wrong)")
     elif not dest:
         ctx.unrec("R3", "KIDA:arity", (file, others[0].lineno if others else fn.lineno), f"no destructuring of the blank-separated text after column {end} into named fields")
+    elif len(dest) != 1 or any(isinstance(e, ast.Starred) for e in dest[0].targets[0].elts):
+        ctx.unrec("R3", "KIDA:arity", (file, dest[0].lineno), "the numeric tail is destructured more than once / with a starred target: the number of tokens it must have is not decided")
     else:
-        ctx.check(len(dest) == 1 and len(dest[0].targets[0].elts) == 13 and not any(isinstance(e, ast.Starred) for e in dest[0].targets[0].elts), "R3", "KIDA:arity", (file, fn.lineno),
-                  "the numeric tail of a KIDA record has exactly 13 tokens", found=str(len(dest[0].targets[0].elts)) if dest else "none")
+        ctx.check(len(dest[0].targets[0].elts) == 13, "R3", "KIDA:arity", (file, fn.lineno),
+                  "the numeric tail of a KIDA record has exactly 13 tokens", found=str(len(dest[0].targets[0].elts)))
 
 
 # ------------------------------------------------------------------ Leeds
@@ -1145,6 +1247,9 @@ def _leeds_prefix(ctx, fl, file):
         if f.kind == "attrstore" and f.target in ("reactants", "products"):
             n += 1
             s = show(simp(f.value))
+            if "surface_prefix='G'" not in s and not ("_create_species(" in s and "surface_prefix" not in s and "**" not in s):
+                ctx.unrec("R5", f"Leeds:{f.target}:surface prefix", (file, f.line), f"cannot see the call of _create_species the list is built with / the surface prefix it is given: {s[:100]}")
+                continue
             ctx.check("surface_prefix='G'" in s, "R5", f"Leeds:{f.target}:surface prefix", (file, f.line), "Leeds names are parsed with the surface prefix 'G'", found=s[:100])
     ctx.floor("R5", "Leeds species stores", n, 2)
 
@@ -1504,4 +1609,16 @@ BENIGN += [
     {"name": "reading-loop-skips-krome-comments-early", "file": NET, "old": _LOOP_TRY,
      "new": '                if format == "krome" and line.startswith("#"):\n                    continue\n' + _LOOP_TRY},
     {"name": "base-constructor-names-the-line-first", "file": R, "old": "        self._parse_string(react_string)\n", "new": "        record = react_string\n        self._parse_string(record)\n"},
+]
+MUTANTS += [
+    {"name": "factory-guard-clause-compares-raw-line-with-empty", "file": NET, "old": _FACT_OLD,
+     "new": '    line = initializer.preprocessing(react_string)\n    if line is None or line == "":\n        return None\n    return initializer(line)\n', "rules": ["R1"]},
+]
+BENIGN += [
+    {"name": "factory-guard-clause-stripped-equals-empty", "file": NET, "old": _FACT_OLD,
+     "new": '    line = initializer.preprocessing(react_string)\n    if not line or line.strip() == "":\n        return None\n    return initializer(line)\n'},
+    {"name": "factory-guard-clause-isspace", "file": NET, "old": _FACT_OLD,
+     "new": '    line = initializer.preprocessing(react_string)\n    if not line or line.isspace():\n        return None\n    return initializer(line)\n'},
+    {"name": "krome-preprocessing-two-keeping-returns", "file": KR, "old": '        else:\n            return line.strip()\n',
+     "new": '        elif line.startswith(" "):\n            return line.strip()\n        else:\n            return line.strip()\n'},
 ]
